@@ -190,8 +190,16 @@ def _k_zoned(c) -> CaseInfo:
     z = Z.zone(zid)
     cal = pyo.cal(cid)
     fake = FakeClock(Z.inst(now), Duration.from_nanoseconds(auto))
-    zc = ZonedClock(fake, z, cal)
-    need(zc.zone is z and zc.calendar is cal and zc.clock is fake, "zoned/attrs")
+    # three spellings of the same view: the constructor, IClock.in_zone(zone[, calendar]) and in_utc()
+    route = (now // 1000 + len(getters)) % 3
+    if route == 0:
+        zc = ZonedClock(fake, z, cal)
+    elif route == 1 or zid != "UTC" or cid != "ISO":
+        zc = fake.in_zone(z, cal) if cid != "ISO" or route == 1 else fake.in_zone(z)
+    else:
+        zc = fake.in_utc()
+    need(isinstance(zc, ZonedClock) and (zc.zone is z or (zid == "UTC" and zc.zone.id == "UTC")) and zc.calendar is cal and zc.clock is fake, "zoned/attrs")
+    z = zc.zone
     cur = now
     for g in getters:
         if not Z.INST_MIN + 20 * 3600 * 10**9 <= cur <= Z.INST_MAX - 20 * 3600 * 10**9:
